@@ -316,15 +316,38 @@ def check_api(ctx, rule):
             samples[src(n.ast.targets[0])] = (ok, sign)
     ctx.ob(rule, ri, "the offsets are sampled exactly one day (24 h = 86400 s) after and before the wall time", samples == {"curr_offset": (True, "+"), "old_offset": (True, "-")},
            construct="offset sampling distance", detail=str(samples), analysis="UNIT (timedelta normal form)")
+    from . import summ
     de = prog.func("tz.tz.datetime_exists", rule)
-    t = norm(src(de.node))
-    ctx.ob(rule, de, "a wall time exists iff it survives the round trip wall -> UTC -> wall (compared as naive values)",
-           "dt=dt.replacetzinfo=None" in t and "dt_rt=dt.replacetzinfo=tz.astimezoneUTC.astimezonetz" in t and "dt_rt=dt_rt.replacetzinfo=None" in t and "returndt==dt_rt" in t,
-           construct="datetime_exists body")
+    summ.check_ref(ctx, rule, de, "a wall time exists iff it survives the round trip wall -> UTC -> wall (compared as naive values); a naive datetime without an "
+                   "explicit zone is a ValueError", """
+        if tz is None:
+            if dt.tzinfo is None:
+                raise ValueError('Datetime is naive and no time zone provided.')
+            tz = dt.tzinfo
+        dt = dt.replace(tzinfo=None)
+        dt_rt = dt.replace(tzinfo=tz).astimezone(UTC).astimezone(tz)
+        dt_rt = dt_rt.replace(tzinfo=None)
+        return dt == dt_rt
+        """, construct="datetime_exists table", as_bool=True)
     da = prog.func("tz.tz.datetime_ambiguous", rule)
-    t = norm(src(da.node))
-    ctx.ob(rule, da, "datetime_ambiguous prefers the zone's own is_ambiguous and falls back to comparing fold=0/fold=1 offsets",
-           "is_ambiguous_fn=getattrtz,'is_ambiguous',None" in t and "returntz.is_ambiguousdt" in t and "returnnotsame_offsetandsame_dst" in t, construct="datetime_ambiguous body")
+    summ.check_ref(ctx, rule, da, "datetime_ambiguous prefers the zone's own is_ambiguous and falls back to comparing the fold=0 / fold=1 offsets and savings", """
+        if tz is None:
+            if dt.tzinfo is None:
+                raise ValueError('Datetime is naive and no time zone provided.')
+            tz = dt.tzinfo
+        is_ambiguous_fn = getattr(tz, 'is_ambiguous', None)
+        if is_ambiguous_fn is not None:
+            try:
+                return tz.is_ambiguous(dt)
+            except Exception:
+                pass
+        dt = dt.replace(tzinfo=tz)
+        wall_0 = enfold(dt, fold=0)
+        wall_1 = enfold(dt, fold=1)
+        same_offset = wall_0.utcoffset() == wall_1.utcoffset()
+        same_dst = wall_0.dst() == wall_1.dst()
+        return not (same_offset and same_dst)
+        """, construct="datetime_ambiguous table", as_bool=True)
     for f in (de, da):
         rs = [x for x in walk_local(f.node) if isinstance(x, ast.Raise)]
         ctx.ob(rule, f, "a naive datetime without an explicit zone is a ValueError", len(rs) == 1 and src(rs[0].exc).startswith("ValueError"), construct="%s: naive without tz" % f.name)
